@@ -91,6 +91,11 @@ void vrt_set_projector(vrt_projector_t fn) { g_proj = fn; }
 void vrt_set_probe_filter(int on) { g_probe_filter = on; }
 void vrt_set_steer(vrt_steer_t fn) { g_steer = fn; }
 static vrt_steer_t g_post_steer;
+/* 0: recorded atomics / probes are not progress for the watchdog (drivers that register objects the library touches
+ * periodically on its own - a root queue's pool monitor - or that generate background traffic); API events and
+ * vrt_progress() always are */
+static int g_record_progress = 1;
+void vrt_set_record_progress(int on) { g_record_progress = on; }
 void vrt_set_post_steer(vrt_steer_t fn) { g_post_steer = fn; }
 size_t vrt_count(void) { return g_n; }
 const vrt_rec_t *vrt_get(size_t i) { return &g_rec[i]; }
@@ -166,7 +171,7 @@ static vrt_rec_t *newrec_p(int progress)
 	r->seq = ++g_seq;
 	r->tid = vrt_tid();
 	r->obj = -1;
-	if (progress) atomic_fetch_add(&g_progress, 1);
+	if (progress && g_record_progress) atomic_fetch_add(&g_progress, 1);
 	return r;
 }
 static vrt_rec_t *newrec(void) { return newrec_p(1); }
@@ -270,6 +275,7 @@ uint64_t vrt_api(const char *name, int obj, long a, long b, long c)
 	if (atomic_load(&g_paused)) return 0;
 	pthread_mutex_lock(&g_lock);
 	vrt_rec_t *r = newrec();
+	if (!g_record_progress) atomic_fetch_add(&g_progress, 1);
 	if (r) { r->kind = VRT_API; r->name = name; r->obj = obj; r->a = a; r->b = b; r->c = c; seq = r->seq; }
 	else seq = ++g_seq;
 	t_last_load_addr = NULL;
